@@ -125,20 +125,6 @@ theorem band (c : Config) (n : Nat) (r : Rat) (hb : 0 ≤ c.base) (hx : 0 ≤ c.
     calc target c n * (1 + c.jitter * (r * 2 - 1)) ≤ target c n * (1 + c.jitter) := mul_le_mul_of_nonneg_left f2 hm0
       _ = (1 + c.jitter) * target c n := by ring
 
-theorem go_agrees (c : Config) (n : Int) (r : Rat)
-    (h : n = 0 ∨ core c n.toNat * (1 + c.jitter * (r * 2 - 1)) < two63) :
-    backoffGo c n r = backoffSat c n r := by
-  unfold backoffGo backoffSat backoffWith
-  by_cases hn : n = 0
-  · simp [hn]
-  · rcases h with h | h
-    · exact absurd h hn
-    · simp only [if_neg hn]
-      split
-      · rfl
-      · unfold wrapConv satConv
-        rw [if_neg (not_le.mpr h), if_neg (not_le.mpr h)]
-
 /-! ### addrConn pacing -/
 
 /-- Readiness: any attempt from this state (before a reset) starts at or after `u`. -/
